@@ -117,10 +117,10 @@ func UnknownExt(n int, critical bool) Ext {
 
 // Entry is one revokedCertificates element.
 type Entry struct {
-	SerialHex string `json:"s"`           // big-endian magnitude in hex
+	SerialHex string `json:"s"`             // big-endian magnitude in hex
 	Neg       bool   `json:"neg,omitempty"` // encode the serial as the NEGATIVE number -magnitude (a broken CA; legal for the decoder)
-	Date      int64  `json:"d"`           // unix seconds
-	GenTime   bool   `json:"g,omitempty"` // encode as GeneralizedTime
+	Date      int64  `json:"d"`             // unix seconds
+	GenTime   bool   `json:"g,omitempty"`   // encode as GeneralizedTime
 	Exts      []Ext  `json:"x,omitempty"`
 }
 
@@ -147,18 +147,18 @@ func (e Entry) DER() []byte {
 
 // CRLSpec describes a CRL to encode.
 type CRLSpec struct {
-	Version    int    `json:"version"`   // -1: field absent (v1); otherwise the INTEGER value (1 = v2)
-	SigAlg     string `json:"sigalg"`    // algorithm used to sign and written as outer signatureAlgorithm
-	InnerAlg   string `json:"inneralg"`  // "" = same as SigAlg
-	IssuerDER  []byte `json:"issuer"`    // raw Name
-	ThisUpdate int64  `json:"this"`      // unix
-	NextUpdate int64  `json:"next"`      // 0 = absent
+	Version    int     `json:"version"`  // -1: field absent (v1); otherwise the INTEGER value (1 = v2)
+	SigAlg     string  `json:"sigalg"`   // algorithm used to sign and written as outer signatureAlgorithm
+	InnerAlg   string  `json:"inneralg"` // "" = same as SigAlg
+	IssuerDER  []byte  `json:"issuer"`   // raw Name
+	ThisUpdate int64   `json:"this"`     // unix
+	NextUpdate int64   `json:"next"`     // 0 = absent
 	Entries    []Entry `json:"entries"`  // empty => revokedCertificates absent
-	HasExts    bool   `json:"hasexts"`   // crlExtensions present
-	Exts       []Ext  `json:"exts,omitempty"`
+	HasExts    bool    `json:"hasexts"`  // crlExtensions present
+	Exts       []Ext   `json:"exts,omitempty"`
 	// Synthetic entry source for very large lists (not serialised): if N > 0 it is used
 	// instead of Entries.
-	N       int                 `json:"n,omitempty"`
+	N       int               `json:"n,omitempty"`
 	EntryFn func(i int) Entry `json:"-"`
 }
 
